@@ -486,10 +486,15 @@ const (
 	vMaxM3  // 2^bits-4      (2^64-4)
 	vMax    // 2^bits-1      (2^64-1, 0xffff, 0xff)
 	vOtherID
+	vWrapA  // 2^(bits-1)-146: int(v)+145 just below the int overflow
+	vWrapB  // 2^(bits-1)-145: int(v)+145 wraps to the most negative int
+	vWrapC  // 2^(bits-1)-20
+	vMaxM11 // 2^bits-12: uint64 subtraction of the 12-byte container header wraps
+	vMaxM12
 )
 
 var vNames = []string{"0", "1", "small", "true-1", "true", "true+1", "total-1", "total", "total+1", "2^31", "2^32",
-	"half-1", "half", "max-3", "max", "other-envelope-id"}
+	"half-1", "half", "max-3", "max", "other-envelope-id", "half-146", "half-145", "half-20", "max-11", "max-12"}
 
 var vByWidth = map[int][]vkind{
 	8: {v0, v1, vSmall, vTrueM1, vTrue, vTrueP1, vTotM1, vTot, vTotP1, v2p31, v2p32, vHalfM1, vHalf, vMaxM3, vMax},
@@ -567,6 +572,16 @@ func (c *c14) headerMutant(es *envSet, idx int, alt bool) (hfield, []byte, strin
 		v = ^uint64(0) - 3
 	case vMax:
 		v = ^uint64(0)
+	case vWrapA:
+		v = 1<<(bits-1) - 146
+	case vWrapB:
+		v = 1<<(bits-1) - 145
+	case vWrapC:
+		v = 1<<(bits-1) - 20
+	case vMaxM11:
+		v = ^uint64(0) - 11
+	case vMaxM12:
+		v = ^uint64(0) - 12
 	case vOtherID:
 		v = uint64(crypto.AcraStructEnvelopeID)
 		if tv == v {
@@ -876,8 +891,36 @@ func runC14Env(rep *vh.Report, r *vh.Rng, n int, thorough bool) {
 			c.valid(lab, es)
 		}
 
+		if sc == 0 {
+			c.wrapSweep(lab, es)
+		}
 		if thorough {
 			c.thoroughSweep(lab, sc, es)
+		}
+	}
+}
+
+// wrapSweep: integer wrap-around values of every 64-bit length field through EVERY decoder that reads it
+// (deterministic, once per run): the sums len+header / len-header must not wrap into an accepted range.
+func (c *c14) wrapSweep(lab string, es *envSet) {
+	wrapVals := []vkind{vHalfM1, vHalf, vWrapA, vWrapB, vWrapC, vMaxM3, vMax, vMaxM11, vMaxM12}
+	for fi, f := range hfields {
+		if f.width != 8 {
+			continue
+		}
+		for _, v := range wrapVals {
+			save := htable
+			htable = []hentry{{fi, v}}
+			for _, alt := range []bool{false, true} {
+				_, m, w := c.headerMutant(es, 0, alt)
+				for _, op := range f.ops {
+					c.rep.Count("class:header(wrap-sweep)")
+					c.run(op, lab+" wrap "+w, m)
+					// the same mutant followed by junk, so that scanners have bytes after the header
+					c.run(op, lab+" wrap+junk "+w, c14Cat(m, c.r.Bytes(3)))
+				}
+			}
+			htable = save
 		}
 	}
 }
